@@ -30,7 +30,18 @@ def _range_contains(r, x):
 
 
 # std functions whose value on known scalar arguments is part of the trusted base (their documented meaning)
+_CORE_DISCR = {"core::result::Result": {"Ok": 0, "Err": 1}, "core::option::Option": {"None": 0, "Some": 1},
+               "core::ops::control_flow::ControlFlow": {"Continue": 0, "Break": 1}}
+
+
+def _try_branch(v):
+    if isinstance(v, tuple) and v and v[0] == "enum" and v[1] in ("core::result::Result", "core::option::Option"):
+        return ("enum", "core::ops::control_flow::ControlFlow", "Continue" if v[2] in ("Ok", "Some") else "Break")
+    raise KeyError
+
+
 STD_VALUES = {
+    "core::ops::try_trait::Try::branch": _try_branch,
     "core::ops::range::RangeInclusive::<Idx>::new": lambda a, b: ("range-incl", a, b),
     "core::ops::range::RangeInclusive::<Idx>::contains": _range_contains,
     "core::ops::range::Range::<Idx>::contains": _range_contains,
@@ -159,7 +170,14 @@ def _step_stmt(env, s):
                 v = own
             elif len(idx) == 1:
                 v = idx[0]
+            elif base[1] in _CORE_DISCR and base[2] in _CORE_DISCR[base[1]]:
+                v = _CORE_DISCR[base[1]][base[2]]
+        elif isinstance(base, tuple) and base and base[0] == "enum" and base[1] in _CORE_DISCR and base[2] in _CORE_DISCR[base[1]]:
+            v = _CORE_DISCR[base[1]][base[2]]
     elif k == "aggr" and rv.get("kind") == "adt" and not rv["ops"]:
+        v = ("enum", rv["adt"], rv["variant"])
+    elif k == "aggr" and rv.get("kind") == "adt" and rv.get("adt") in _CORE_DISCR and rv.get("variant") in _CORE_DISCR[rv["adt"]]:
+        # `Err(e)` / `Ok(v)` / `Some(x)`: which variant it is is known even when the payload is not
         v = ("enum", rv["adt"], rv["variant"])
     elif k == "aggr" and rv.get("kind") == "adt" and rv.get("adt") in ("core::ops::range::Range", "core::ops::range::RangeInclusive"):
         ops = [_operand(env, o) for o in rv["ops"]]
@@ -180,6 +198,14 @@ def return_values(fn, atoms=None, params=None, call_values=None):
         vals.add("unknown" if v is UNK else v)
     walk(fn, 0, atoms=atoms, params=params, call_values=call_values, on_return=on_return)
     return vals
+
+
+def _always_err(prog, name):
+    from .prov import always_err_fn
+    try:
+        return always_err_fn(prog, name)
+    except Exception:
+        return False
 
 
 def walk(fn, start, atoms=None, sinks=(), params=None, stop=(), max_states=20000, call_values=None, on_return=None):
@@ -223,8 +249,16 @@ def walk(fn, start, atoms=None, sinks=(), params=None, stop=(), max_states=20000
                     v = UNK
                     if True:
                         name = callee_path(t)
+                        if name == "core::ops::try_trait::FromResidual::from_residual" or (
+                                name and fn.prog is not None and name in fn.prog.fns and _always_err(fn.prog, name)):
+                            # the early return of a `?` / an always-failing helper: the failure variant of its type
+                            ty = fn.local_ty(dl) or ""
+                            if ty.startswith("core::result::Result<"):
+                                v = ("enum", "core::result::Result", "Err")
+                            elif ty.startswith("core::option::Option<"):
+                                v = ("enum", "core::option::Option", "None")
                         fnc = (call_values.get(name) if call_values else None) or STD_VALUES.get(name)
-                        if fnc:
+                        if fnc and v is UNK:
                             args = [_operand(env, a) for a in t["args"]]
                             if all(a is not UNK for a in args):
                                 try:
